@@ -651,6 +651,34 @@ func cliCase(t *Table, cs CaseSpec, rng *rand.Rand) (events []interface{}) {
 			projectHead(204, curB)
 		}
 	}
+	// file and key declared with `wrgl branch config` (the other way of setting them), the key columns listed in
+	// the OTHER order: the table is the table of the declared key - the order of the key columns is part of it
+	if len(t.PK) >= 2 && unique {
+		declared := *t
+		declared.PK = nil
+		for i := len(t.PK) - 1; i >= 0; i-- {
+			declared.PK = append(declared.PK, t.PK[i])
+		}
+		if out, err := r.Run(nil, "branch", "config", "viacfg", "--set-file", fp, "--set-primary-key", strings.Join(declared.PK, ",")); err != nil {
+			return fail("branch-config", err, out)
+		}
+		if out, err := r.Run(nil, "commit", "viacfg", "declared with branch config", "-n", "1"); err != nil {
+			return fail("commit-branch-config", err, out)
+		}
+		if db, rs, closeFn, err := r.Open(); err == nil {
+			if sum, err := ref.GetHead(rs, "viacfg"); err == nil {
+				if com, err := objects.GetCommit(db, sum); err == nil {
+					cur, _ := parseCSV(tbl.CSV(append([][]string{t.Cols}, rows...), 0), 0)
+					cfg := Cfg{Seed: cs.Seed, Variant: 205, Kind: "cli", Workers: 1, Cols: t.Cols, PK: declared.PK, NRows: len(rows), Delim: ","}
+					events = append(events, Project(&declared, cur[1:], db, com.Table, nil, cfg))
+				}
+			} else {
+				closeFn()
+				return fail("commit-branch-config", fmt.Errorf("no head after the commit"), "")
+			}
+			closeFn()
+		}
+	}
 	// the commit cache: commits driven by the branch configuration reuse a cached temporary commit when the
 	// file is older than it.  After the configured key is narrowed to its first column, the same unchanged
 	// file must be committed as a table with THAT key (other key => other table, other identifier).
